@@ -213,6 +213,27 @@ Definition verify_redirect_signature (T : tables) (st : shared) (ckey : option k
       end
   end.
 
+(* The certificate argument as the caller PRESENTS it: absent, a text that
+   extract_rsa_key_from_x509_cert(pem_format(cert)) can read (it then denotes a key), or a text it cannot
+   read (PEM armour given twice, truncated or damaged body, arbitrary text): the extraction raises
+   ValueError after the SigAlg / order / Signature-presence steps and before the base64 decoding of the
+   Signature value and the verification itself. *)
+Inductive presented := PAbsent | PReadable (k : keyid) | PUnreadable.
+Definition ValueError := s2l "ValueError".
+Definition verify_presented (T : tables) (st : shared) (ckey : option keyid) (q : query)
+    (c : presented) (sigkey : option keyid) : shared * result (option bool) :=
+  match c with
+  | PAbsent => verify_redirect_signature T st ckey q None sigkey
+  | PReadable k => verify_redirect_signature T st ckey q (Some k) sigkey
+  | PUnreadable =>
+      let r := verify_redirect_signature T st ckey q None sigkey in
+      match snd r with
+      | Ok None => r                                          (* unknown algorithm: returns None before the certificate is looked at *)
+      | Err e => if str_eqb e KeyError || str_eqb e Unsupported then r else (fst r, Err ValueError)
+      | Ok (Some _) => (fst r, Err ValueError)
+      end
+  end.
+
 Definition verifies (r : shared * result (option bool)) : bool :=
   match snd r with Ok (Some true) => true | _ => false end.
 
